@@ -42,6 +42,9 @@ func (pp *secp256k1ProofPart) Bytes() []byte {
 }
 
 func (pp *secp256k1ProofPart) recover(mod secp256k1proofContextModule, hash []byte) ([]byte, error) {
+	if pp.Signature == nil {
+		return nil, errors.Errorf("proof part without signature index=%d", pp.Index)
+	}
 	pubKey, err := pp.Signature.RecoverPublicKey(hash)
 	if err != nil {
 		return nil, err
